@@ -14,3 +14,6 @@
 #[verifier::external_body] pub fn vx_vec_repeat<T: Clone>(e: T, n: usize) -> (r: Vec<T>) ensures r@.len() == n, forall|i: int| 0 <= i < n ==> #[trigger] r@[i] == e { vec![e; n] }
 // R32: next value of a local counter whose machine overflow is not checked
 #[verifier::external_body] pub fn vx_usize_next(c: usize) -> (r: usize) { c.wrapping_add(1) }
+// std: Option<&T>::copied (the definition in core)
+pub assume_specification<'a, T: Copy>[ Option::<&'a T>::copied ](o: Option<&'a T>) -> (r: Option<T>)
+    ensures r == (match o { Some(x) => Some(*x), None => None::<T> });
